@@ -10,8 +10,9 @@ CONSTANTS
   Dev_NdKeyStr = TRUE
   Dev_NdValIndex = TRUE
   Dev_CsIndex = TRUE
+  Dev_SizeHint = TRUE
   Emit = TRUE
-  Scen = {"deref", "cont", "rsrc", "links", "dest", "kids", "names", "img", "toc"}
+  Scen = {"deref", "cont", "rsrc", "links", "dest", "kids", "names", "img", "toc", "pages"}
 INVARIANTS PcOK Bounded RsrcDepth EmitInv
 
 CHECK_DEADLOCK FALSE
